@@ -65,7 +65,9 @@ static void op_HostCommit(const jv *in, jout *out) {
     const secp256k1_context *c = vh_s2c_ctx(in);
     unsigned char rho[32], com[32]; int ret;
     jv_need(in, "rho", rho, 32); memset(com, 0xAA, 32);
-    ret = secp256k1_ecdsa_anti_exfil_host_commit(c, com, rho);
+    /* "alias": 1 = the host hashes its randomness in place (output buffer = input buffer) */
+    if (jv_int(in, "alias", 0)) { ret = secp256k1_ecdsa_anti_exfil_host_commit(c, rho, rho); memcpy(com, rho, 32); }
+    else ret = secp256k1_ecdsa_anti_exfil_host_commit(c, com, rho);
     jo_int(out, "ret", ret); jo_bytes(out, "commitment", com, 32);
     vh_s2c_ctx_done(in, out);
 }
